@@ -248,6 +248,14 @@ func copiesField(fn *ssa.Function, src, dst ssa.Value, field string, before func
 		if found != "" {
 			return
 		}
+		if d, sv, ok := mapsCopyCall(in); ok {
+			db, ok1 := fieldLoad(d, "RenderContext", field)
+			sb, ok2 := fieldLoad(sv, "RenderContext", field)
+			if ok1 && ok2 && sameValue(db, dst) && sameValue(sb, src) && before(in.Block(), in) {
+				found = "maps.Copy of the child's map into the parent's map"
+			}
+			return
+		}
 		switch x := in.(type) {
 		case *ssa.Range:
 			if base, ok := fieldLoad(x.X, "RenderContext", field); ok && sameValue(base, src) && hasUpdate && before(x.Block(), nil) {
@@ -342,6 +350,14 @@ func checkParentCallContext(w *World, r *Report) {
 		// what is copied into derived.blocks, and from where?
 		var sources []string
 		instrsOf(fn, func(in ssa.Instruction) {
+			if d, sv, ok := mapsCopyCall(in); ok {
+				if base, ok := fieldLoad(d, "RenderContext", "blocks"); ok && base == derived {
+					if _, f := originField(sv, 0); f != "" {
+						sources = append(sources, f)
+					}
+				}
+				return
+			}
 			mu, ok := in.(*ssa.MapUpdate)
 			if !ok {
 				return
@@ -679,4 +695,26 @@ func checkExtendingRendersNothingElse(w *World, r *Report) {
 		}
 	}
 	r.floor("hand-overs of the output to an extends node", n, 1)
+}
+
+
+// mapsCopyCall: in is `maps.Copy(dst, src)` (an instantiation of the standard library's generic
+// copy: for k, v := range src { dst[k] = v }).
+func mapsCopyCall(in ssa.Instruction) (dst, src ssa.Value, ok bool) {
+	c, isCall := in.(*ssa.Call)
+	if !isCall || len(c.Call.Args) != 2 {
+		return nil, nil, false
+	}
+	h := c.Call.StaticCallee()
+	if h == nil {
+		return nil, nil, false
+	}
+	o := h
+	if h.Origin() != nil {
+		o = h.Origin()
+	}
+	if o.Pkg == nil || o.Pkg.Pkg.Path() != "maps" || o.Name() != "Copy" {
+		return nil, nil, false
+	}
+	return c.Call.Args[0], c.Call.Args[1], true
 }
